@@ -92,7 +92,7 @@ INPLACE = {"gin", "convert_to_units", "convert_to_base", "convert_to_cgs", "conv
 
 GEN = ["gufunc", "gunary", "garrfn", "gmethod"]  # generic copying families (frame-only)
 GIN = ["gin"]  # generic in-place family (frame-only)
-NONG = ["in_units", "to", "to_value", "in_base", "in_cgs", "in_mks", "to_equivalent", "binop", "ufunc", "unary", "copy", "concatenate", "dot", "clip",
+NONG = ["in_units", "to", "to_value", "in_base", "in_cgs", "in_mks", "to_equivalent", "binop", "ufunc", "unary", "copy", "concatenate", "dot", "clip", "aunit",
         "umul", "udiv", "upow", "ubase", "ucoeff", "ucopy", "usimplify", "units_simplify"] + sorted(INPLACE - {"gin"})
 
 
@@ -184,7 +184,7 @@ def run(ck):
              ("step", nameg, f"single step: configurations x generic copying families ({nameg})"),
              ("step", nameg2, f"single step: configurations x generic copying families ({nameg2})")]
     # 2a. "new object" really new?  every copying call that returns an array, followed by every in-place call on the result R
-    first = ["in_units", "to", "in_base", "in_mks", "in_cgs", "copy", "unary", "to_equivalent"] + ck.q([], ["binop", "clip", "concatenate"])
+    first = ["in_units", "to", "in_base", "in_mks", "in_cgs", "copy", "unary", "to_equivalent", "aunit"] + ck.q([], ["binop", "clip", "concatenate"])
     second = ["iop", "setitem0", "convert_to_units"] + ck.q([], ["unary_out", "put"])
     nm = _cfg(ck, "MC_C18_focus", 2, ["f8"] + ck.q([], ["i8"]), ["f8"], ["la"], ["lb"], ["na"], ["f8"], first, ops2=second, focus=True)
     insts.append(("focus", nm, "copying call, then every in-place call on its result R"))
